@@ -7,14 +7,17 @@ import (
 	"strings"
 	"time"
 
+	"github.com/metal-toolbox/audito-maldito/ingesters/namedpipe"
+	"github.com/metal-toolbox/audito-maldito/ingesters/syslog"
 	"github.com/metal-toolbox/audito-maldito/internal/common"
+	"github.com/metal-toolbox/audito-maldito/internal/health"
 	"github.com/metal-toolbox/audito-maldito/internal/simrt"
 	"github.com/metal-toolbox/audito-maldito/processors/sshd"
 )
 
 // C05: accepted logins reach the correlator exactly once, matching the written event.
 
-var c05Faults = []string{"none", "consumer-delayed", "write-error", "cancel-while-blocked", "cancel-before-call"}
+var c05Faults = []string{"none", "consumer-delayed", "write-error", "cancel-while-blocked", "cancel-before-call", "consumer-delayed-seconds-via-ingester"}
 
 func init() {
 	register(&propDef{
@@ -24,8 +27,8 @@ func init() {
 			{Name: "negatives", Fn: scnC05Neg, Weight: 1},
 		},
 		Rule: "accepted public-key (exact / trailing text / certificate id) and password lines with generated fields x fault {none, consumer delayed by k steps, write error at the event write, " +
-			"cancellation while the hand-off is blocked on an unready correlator, cancellation before the call} enumerated within each group of runs; the sshd processor runs as a simulated task, the correlator side of the " +
-			"unbuffered logins channel is a second task under scheduler control; negatives: failure forms and unrecognised lines must forward nothing; " +
+			"cancellation while the hand-off is blocked on an unready correlator, cancellation before the call, correlator busy for 0.3-9 simulated seconds with the line going through the real syslog ingester callback} enumerated within each group of runs; the sshd processor runs as a simulated task, the correlator side of the " +
+			"unbuffered logins channel is a second task under scheduler control; negatives: failure forms, unrecognised lines and failure lines whose client-chosen user name embeds a complete accepted-login message must forward nothing and write no succeeded event; " +
 			"non-trivial = the intended fault fired (or, for none/delayed, exactly one hand-off was observed); distinct = distinct (message, fault, delay, schedule hash)",
 		Quick: 4000, Thorough: 200000,
 	})
@@ -66,12 +69,21 @@ func scnC05(rc *RunCtx) {
 		cancel()
 		rc.Sim.Count("ctx.cancel")
 	}
-	rc.Sim.Spawn("sshd-proc", func() {
-		res.set(proc.ProcessSshdLogEntry(ctx, sshd.SshdLogEntry{PID: m.PID, Message: m.Msg}))
-	})
+	delayMs := 0
+	if fault == "consumer-delayed-seconds-via-ingester" {
+		// the line goes through the real syslog ingester's callback and the correlator is busy
+		// for a taped number of simulated milliseconds (flushing, cleanup, start-up)
+		delayMs = []int{300, 900, 1500, 2500, 4000, 9000}[t.Choose(6, "delay.ms")]
+		sli := syslog.NewSyslogIngester("/unused", proc, namedpipe.NewNamedPipeIngester(nopLogger, health.NewHealth()))
+		rc.Sim.Spawn("sshd-proc", func() { res.set(sli.Process(ctx, m.Line(t.Choose(3, "pad")))) })
+	} else {
+		rc.Sim.Spawn("sshd-proc", func() {
+			res.set(proc.ProcessSshdLogEntry(ctx, sshd.SshdLogEntry{PID: m.PID, Message: m.Msg}))
+		})
+	}
 	cons := &c05Consumer{}
 	delay := 0
-	consumerOn := fault == "none" || fault == "consumer-delayed" || fault == "write-error"
+	consumerOn := fault == "none" || fault == "consumer-delayed" || fault == "write-error" || fault == "consumer-delayed-seconds-via-ingester"
 	if fault == "consumer-delayed" {
 		delay = 1 + t.Choose(30, "delay")
 	}
@@ -81,6 +93,9 @@ func scnC05(rc *RunCtx) {
 		rc.Sim.Spawn(name, func() {
 			for i := 0; i < delay; i++ {
 				simrt.Point("world.consumer.delay")
+			}
+			if delayMs > 0 {
+				simrt.Sleep(time.Duration(delayMs)*time.Millisecond, "world.consumer.busy")
 			}
 			for {
 				simrt.Point("world.consumer")
@@ -105,7 +120,7 @@ func scnC05(rc *RunCtx) {
 		return false
 	}
 	runFor := func(stop func() bool) {
-		for i := 0; i < 10; i++ {
+		for i := 0; i < 10+delayMs/100; i++ {
 			if why := rc.Sim.RunUntil(stop, 50000); why != "idle" {
 				return
 			}
@@ -177,7 +192,7 @@ func scnC05(rc *RunCtx) {
 			return
 		}
 	}
-	if fault == "none" || fault == "consumer-delayed" {
+	if fault == "none" || fault == "consumer-delayed" || fault == "consumer-delayed-seconds-via-ingester" {
 		rc.R.NonTrivial = len(cons.got) == 1
 		if res.err != nil {
 			rc.Fail("C05", "unexpected-error", "ProcessSshdLogEntry returned %v", res.err)
@@ -214,14 +229,27 @@ func scnC05(rc *RunCtx) {
 // scnC05Neg: failure forms and unrecognised lines never forward a login.
 func scnC05Neg(rc *RunCtx) {
 	t := rc.Spec
-	var m *SshdMsg
-	for {
-		m = GenSshdMsg(t, "", 1+t.Choose(9, "uniq"))
-		if !m.Accepted {
-			break
+	// failure forms only (total also under a zeroed replay tape)
+	var failureForms []string
+	for _, f := range sshdForms {
+		if !strings.HasPrefix(f, "accepted-") {
+			failureForms = append(failureForms, f)
 		}
 	}
-	if t.Choose(4, "unrecognised") == 0 {
+	m := GenSshdMsg(t, failureForms[t.Choose(len(failureForms), "form")], 1+t.Choose(9, "uniq"))
+	if t.Choose(3, "adversarial") == 0 {
+		// a client-chosen user name that embeds a complete accepted-login message (sshd echoes
+		// the name verbatim in its failure messages)
+		inner := GenSshdMsg(t, []string{"accepted-password", "accepted-key", "accepted-cert"}[t.Choose(3, "inner")], 7).Msg
+		m.Msg = []string{
+			"Invalid user " + inner + " from 203.0.113.9 port 40022",
+			"Failed password for invalid user " + inner + " from 203.0.113.9 port 40022 ssh2",
+			"User " + inner + " from 203.0.113.9 not allowed because not listed in AllowUsers",
+			"maximum authentication attempts exceeded for invalid user " + inner + " from 203.0.113.9 port 40022 ssh2",
+			"debug1: " + inner,
+		}[t.Choose(5, "outer")]
+		m.Form = "failure-line-embedding-accepted-text"
+	} else if t.Choose(4, "unrecognised") == 0 {
 		m.Msg = []string{"Connection closed by 10.0.0.1 port 22", "Disconnected from user x", "Accepted keyboard-interactive/pam for bob from 1.2.3.4 port 5 ssh2", "pam_unix(sshd:session): session opened"}[t.Choose(4, "which")]
 		m.Form = "unrecognised"
 	}
@@ -246,5 +274,12 @@ func scnC05Neg(rc *RunCtx) {
 	}
 	if len(got) > 0 {
 		rc.Fail("C05", "forward-on-failure-line", "a %s line (%q) forwarded %d login(s)", m.Form, m.Msg, len(got))
+		return
+	}
+	for _, e := range rec.Events {
+		if e.Outcome == "succeeded" {
+			rc.Fail("C05", "succeeded-event-on-failure-line", "a %s line (%q) wrote a succeeded UserLogin event", m.Form, m.Msg)
+			return
+		}
 	}
 }
